@@ -387,3 +387,35 @@ uint64_t X_strtol(void *nptr, void *endptr, uint32_t base)
   return neg ? (uint64_t)(0 - v) : v;
 }
 void *X_strerror(uint32_t e) { (void)e; return vf_what_text; }
+
+/* ---------------------------------------------------------------- an in-memory stdio file (the decompressed temporary file of img_gzfile.cc)
+ * The harness sets size/contents through the X_vfz_* helpers; fseek/fread follow ISO C on it. */
+#define VFZ_MAX 48
+static uint8_t vfz_data[VFZ_MAX];
+static uint64_t vfz_size, vfz_pos;
+static uint32_t vfz_eof, vfz_err;
+static uint8_t vfz_handle;
+void X_vfz_setup(uint64_t size) { vfz_size = size; vfz_pos = 0; vfz_eof = 0; vfz_err = 0; }
+void X_vfz_poke(uint64_t i, uint8_t v) { if (i < VFZ_MAX) vfz_data[i] = v; }
+uint8_t X_vfz_peek(uint64_t i) { return i < VFZ_MAX ? vfz_data[i] : 0; }
+void *X_vfz_file(void) { return &vfz_handle; }
+uint32_t X_fseek(void *f, uint64_t off, uint32_t whence)
+{
+  (void)f;
+  if (whence != 0) return (uint32_t)-1;
+  if ((int64_t)off < 0) { vf_errno_cell = 22; return (uint32_t)-1; }
+  vfz_pos = off; vfz_eof = 0;           /* seeking beyond the end is allowed */
+  return 0;
+}
+uint64_t X_fread(void *ptr, uint64_t size, uint64_t n, void *f)
+{
+  (void)f;
+  uint8_t *dst = (uint8_t *)ptr;
+  uint64_t want = size * n, avail = vfz_pos < vfz_size ? vfz_size - vfz_pos : 0;
+  uint64_t give = want < avail ? want : avail;
+  for (uint64_t i = 0; i < VFZ_MAX; ++i) if (i < give) dst[i] = vfz_data[(vfz_pos + i) % VFZ_MAX];
+  vfz_pos += give;
+  if (give < want) vfz_eof = 1;
+  return size ? give / size : 0;
+}
+uint32_t X_ferror(void *f) { (void)f; return vfz_err; }
